@@ -187,6 +187,10 @@ def run(ctx, config='rel-all'):
             n5 += 1
             al = [e for e in r.events if e.kind == 'call' and e.is_own() and (e.callee or '').endswith('::alloc')]
             okv = len(al) == 1 and al[0].args == [('param', 2), ('param', 1)] and r.ret is not None and (al[0].ret in subterms(r.ret)) and not normal_drops(b, I, r)
+            if not okv and name != 'new_in':
+                # built on the checked constructor instead of allocating itself
+                ni = [e for e in r.events if e.kind == 'call' and e.is_own() and (e.callee or '').endswith('Box::<\'a, T>::new_in')]
+                okv = len(ni) == 1 and ni[0].args == [('param', 1), ('param', 2)] and r.ret is not None and (ni[0].ret == r.ret or ni[0].ret in subterms(r.ret)) and not normal_drops(b, I, r)
             if okv:
                 ctx.ok('R5', 'Box::%s: the box holds exactly the pointer returned by a.alloc(x); x is moved, not dropped' % name, 'return aggregate contains the allocation result')
             else:
